@@ -4,6 +4,7 @@ from .. import cases as K
 from ..layer_a import Engine, proj_default
 from ..runner import run_coexec, replay_coexec
 from ..tuple_part import TuplePart
+from .C16 import ShapePart
 from .C03 import lower_bound
 
 MODULE = "Props.C04"
@@ -99,8 +100,18 @@ def engines(tier):
 def run(tier, seed):
     return run_coexec("C04", tier, seed, module=MODULE, theorems=THEOREMS, gen_cases=gen_cases,
                       nontrivial=nontrivial, rule=RULE, engines=engines(tier), stats=stats,
-                      parts=[TuplePart("C04", proj_default, n_quick=30)])
+                      parts=[TuplePart("C04", proj_default, n_quick=30),
+                             # WHEN an ordered call takes its slot: async methods (async fn, -> impl Future, #[async_trait]) are evaluated when
+                             # the future is first polled, not when it is built, once per await, never if dropped unpolled (the shape model's
+                             # evaluation counters before / after each step)
+                             ShapePart("C04", "shapes04", lambda m: m["flav"] != "sync",
+                                       "async flavours: the mock is consulted (and an ordered slot taken) at the first poll, once per await, "
+                                       "not at all for a future dropped unpolled, vs Macro/ShapeRun (C05_async_deferred, C05_once_per_await)")])
 
 
 def replay(path):
+    import json
+    if json.load(open(path)).get("part") == "shape":
+        from .C16 import replay_shape
+        return replay_shape("C04", json.load(open(path)), path, "shapes04")
     return replay_coexec("C04", path, lambda p: Engine("C04", bc=p.get("build", "cfg_std"), features=p.get("features")))
